@@ -144,7 +144,7 @@ theorem Dense.run_reach (lat : Lat L) (G : Graph) (tr : Nat → L → L) (entry 
     split
     · exact hs
     · rename_i x xs hq
-      rw [Dense.reify_eq]
+      simp only [Dense.reify_eq]
       apply ih
       apply Reach.step hs
       have hmem : (x :: xs).getD (pick k (x :: xs) % (x :: xs).length) x ∈ queued G s := by
@@ -198,7 +198,7 @@ theorem dense_run_terminal (lat : Lat L) (hl : lat.Laws) (G : Graph) (hG : G.WF)
         rw [List.getElem?_eq_getElem hlt]
         exact List.getElem_mem hlt
       simp only [queued, List.mem_filter] at hmem
-      rw [Dense.reify_eq]
+      simp only [Dense.reify_eq]
       apply ih _ _ (Reach.step hs hmem.2)
       have := mu_step lat G tr rank H hl hr entry s _ (inv_reach lat G tr hl hG entry s hs)
         (asc_reach lat G tr hl hG hm entry s hs) hmem.2
@@ -330,7 +330,7 @@ theorem Sparse.run_reach (lat : Lat L) (P : Prog L) (val0 : Nat → L) (nv : Nat
     split
     · exact hs
     · rename_i x xs hq
-      rw [Sparse.reify_eq]
+      simp only [Sparse.reify_eq]
       apply ih
       apply Sparse.Reach.step hs
       have hmem : (x :: xs).getD (pick k (x :: xs) % (x :: xs).length) x ∈ Sparse.queued P s := by
@@ -380,7 +380,7 @@ theorem sparse_run_terminal (lat : Lat L) (hl : lat.Laws) (P : Prog L) (hw : P.W
         rw [List.getElem?_eq_getElem hlt]
         exact List.getElem_mem hlt
       simp only [Sparse.queued, List.mem_filter] at hmem
-      rw [Sparse.reify_eq]
+      simp only [Sparse.reify_eq]
       apply ih _ _ (Sparse.Reach.step hs hmem.2)
       have := Sparse.mu_step lat P rank H hl hr val0 s _ (Sparse.inv_reach lat P hl hw hd val0 s hs)
         (Sparse.asc_reach lat P hl hw hd hm val0 h0 s hs) hmem.2
